@@ -584,6 +584,9 @@ class Container_get_trees(Contract):
     trusted = True
 
     def fresh_result(self, cx, a):
+        me = a["self"]
+        if isinstance(me, SObj) and "@trees" in me.fields:      # containers of contracts/search.py carry their trees as ghost
+            return me.fields["@trees"]
         return cx.opaque_list(cx.int("n_trees", lo=0), fresh=True)
 
 
